@@ -36,7 +36,10 @@ class Finding:
             return False
         sig = violation.get("signature", {})
         for k, v in self.signature.items():
-            if sig.get(k) != v:
+            if isinstance(v, dict) and "in" in v:
+                if sig.get(k) not in v["in"]:
+                    return False
+            elif sig.get(k) != v:
                 return False
         if self.trigger and self.trigger not in violation.get("triggers", []):
             return False
